@@ -4153,6 +4153,8 @@ class Qube(object):
 
         self = Qube.BOOLEAN_CLASS.as_boolean(self)
 
+        self._check_axis(axis, 'any()')         # make sure axis input is valid
+
         if not self._shape_:
             args = (self,)                  # make a copy
 
@@ -4196,6 +4198,8 @@ class Qube(object):
         """
 
         self = Qube.BOOLEAN_CLASS.as_boolean(self)
+
+        self._check_axis(axis, 'all()')         # make sure axis input is valid
 
         if not self._shape_:
             args = (self,)                  # make a copy
